@@ -228,6 +228,56 @@ fn classify_by_repair(judge: &Judge, out: &[u8]) -> Option<String> {
     None
 }
 
+/// Finding K1, verified on the engine: the invalid output spells a character of an object key as a `\uXXXX` escape,
+/// and the same output with those escapes written as the characters themselves is refused by the engine -- i.e. the
+/// schema is enforced for the plain spelling of the key and bypassed by the escaped one.
+fn classify_escaped_key(f: &llguidance::ParserFactory, g: &GCase, out: &[u8]) -> Option<String> {
+    let text = std::str::from_utf8(out).ok()?;
+    let b = text.as_bytes();
+    let mut plain = String::new();
+    let mut i = 0;
+    let mut n = 0;
+    while i < b.len() {
+        if b[i] == b'\\' && i + 1 < b.len() {
+            if b[i + 1] == b'u' && i + 6 <= b.len() {
+                if let Ok(cp) = u32::from_str_radix(&text[i + 2..i + 6], 16) {
+                    if cp >= 0x20 && cp != 0x22 && cp != 0x5C && cp != 0x7F && !(0xD800..0xE000).contains(&cp) {
+                        plain.push(char::from_u32(cp)?);
+                        n += 1;
+                        i += 6;
+                        continue;
+                    }
+                }
+            }
+            // any other escape: copy both bytes
+            plain.push_str(&text[i..i + 2]);
+            i += 2;
+            continue;
+        }
+        let l = match b[i] {
+            0..=0x7F => 1,
+            0xC0..=0xDF => 2,
+            0xE0..=0xEF => 3,
+            _ => 4,
+        }
+        .min(b.len() - i);
+        plain.push_str(&text[i..i + l]);
+        i += l;
+    }
+    if n == 0 {
+        return None;
+    }
+    // the plain spelling must be refused by a byte-level engine over the same grammar (default limits)
+    let v1 = vocab::v1(false);
+    let f1 = factory_noslice(&v1).ok()?;
+    let _ = f;
+    let m1 = matcher(&f1, g).ok()?;
+    if m1.is_error() || accepts_complete(&m1, plain.as_bytes()) {
+        return None;
+    }
+    Some("escaped_key_spelling_bypasses_key_schema".into())
+}
+
 fn accepts_complete(m0: &Matcher, text: &[u8]) -> bool {
     let mut m = m0.clone();
     for &b in text {
@@ -250,7 +300,8 @@ fn run_case(ctx: &mut Ctx, idx: u64, v1: &Vocab) {
         serde_json::from_str(&rng.pick(&c).text).unwrap()
     } else {
         let g = JsonGen { subset: rng.chance(1, 4), max_depth: 1 + rng.below(3) as u32, n_defs: 0 };
-        let mut s = g.gen_top(&mut rng);
+        let obj_depth = 1 + rng.below(2) as u32;
+        let mut s = if rng.chance(1, 6) { g.gen_object(&mut rng, obj_depth) } else { g.gen_top(&mut rng) };
         if rng.chance(1, 12) {
             add_unsupported(&mut rng, &mut s);
             unsupported = true;
@@ -333,7 +384,7 @@ fn run_case(ctx: &mut Ctx, idx: u64, v1: &Vocab) {
             Judgement::Invalid(why) => {
                 let d = json!({"schema": schema, "vocab": v.name, "output": bytes_dbg(&out), "why": why, "tokens": toks});
                 let rp = ctx.replay(idx);
-                let kind = classify_by_repair(&judge, &out).unwrap_or_else(|| classify_invalid(&why));
+                let kind = classify_by_repair(&judge, &out).or_else(|| classify_escaped_key(&f, &g, &out)).unwrap_or_else(|| classify_invalid(&why));
                 ctx.rep.violation(&kind, &tags, d, rp);
                 return;
             }
@@ -376,6 +427,52 @@ fn run_case(ctx: &mut Ctx, idx: u64, v1: &Vocab) {
             }
         }
     }
+    // ---- schema-directed probes for objects: every declared / pattern-matching / foreign key with every value of a
+    // small pool, alone and in pairs; what the reference validator refuses must not be accepted as complete
+    if let Some(o) = schema.as_object().filter(|o| o.contains_key("properties") || o.contains_key("patternProperties")) {
+        let mut names: Vec<String> = vec!["zz".into(), "fo".into()];
+        if let Some(p) = o.get("properties").and_then(|p| p.as_object()) {
+            names.extend(p.keys().cloned());
+        }
+        if let Some(r) = o.get("required").and_then(|p| p.as_array()) {
+            names.extend(r.iter().filter_map(|x| x.as_str().map(|s| s.to_string())));
+        }
+        for k in crate::gen_json::KEYS.iter().take(6) {
+            names.push(k.to_string());
+        }
+        names.sort();
+        names.dedup();
+        let pool = [json!(1), json!(-301), json!(11), json!(2.5), json!("s"), json!(""), json!(true), Value::Null, json!([]), json!({})];
+        let mut cands: Vec<Value> = vec![json!({})];
+        for k in &names {
+            for v in &pool {
+                let mut m = serde_json::Map::new();
+                m.insert(k.clone(), v.clone());
+                cands.push(Value::Object(m));
+            }
+        }
+        for _ in 0..ctx.pick(20, 60) {
+            let mut m = serde_json::Map::new();
+            for _ in 0..2 + rng.below(2) {
+                m.insert(rng.pick(&names).clone(), rng.pick(&pool).clone());
+            }
+            cands.push(Value::Object(m));
+        }
+        for c in cands {
+            // keys in schema order first (the engine fixes the order of declared properties)
+            let txt = serde_json::to_string(&c).unwrap();
+            ctx.rep.inc("object_probes");
+            if let Judgement::Invalid(why) = judge.judge_text(txt.as_bytes()) {
+                ctx.rep.inc("object_probes_invalid");
+                if accepts_complete(&m1, txt.as_bytes()) {
+                    let d = json!({"schema": schema, "invalid_text_accepted": txt, "why_invalid": why});
+                    let rp = ctx.replay(idx);
+                    ctx.rep.violation("invalid_instance_accepted", &tags, d, rp);
+                    return;
+                }
+            }
+        }
+    }
     if rng.chance(1, 60) {
         ctx.rep.sample(json!({"schema": schema, "vocab": v.name, "keyword_kinds": kinds.len()}));
     }
@@ -383,7 +480,7 @@ fn run_case(ctx: &mut Ctx, idx: u64, v1: &Vocab) {
 
 pub fn run(ctx: &mut Ctx) {
     let v1 = vocab::v1(false);
-    let n_cases = ctx.pick(2400, 1200000);
+    let n_cases = ctx.pick(9000, 1200000);
     for idx in 0..n_cases {
         if !ctx.mine(idx) {
             continue;
